@@ -268,6 +268,11 @@ def check_rejection_history(pb, opts, out, lls_all, events, ll_lib, expect_lls=T
                         "the library has %d" % (n_eval, choices[0]["a"], N)))
     elif idx_inmem is None:
         idx = np.arange(n_eval)
+    if len(unis) == 1 and np.size(unis[0]["result"]) != n_eval and not opts["in_memory"]:
+        # one uniform per evaluated sample: another count means another number of rows was evaluated than the
+        # library size / n_prior_samples prescribes
+        return [("evaluated-count-differs", "%d prior samples were evaluated (one uniform each), the request prescribes %d "
+                 "(library %d, n_prior_samples=%r)" % (np.size(unis[0]["result"]), n_eval, N, opts.get("n_prior_samples")))], info
     if len(unis) != 1 or np.size(unis[0]["result"]) != n_eval:
         return [("inconclusive-pattern", "expected one uniform(size=%d) draw from the sampler's generator, saw %s"
                  % (n_eval, [np.size(e["result"]) for e in unis]))], info
